@@ -90,7 +90,7 @@ Theorem reject_changed_field : forall fx l1 c c' l2 fs1 of nf fs2 fs2',
   exists code, lint_with fx (l1 ++ c :: l2) (l1 ++ c' :: l2) = Reject code.
 Proof.
   intros fx l1 c c' l2 fs1 of nf fs2 fs2' FX W K SH E E' NA. apply reject_replace; try assumption.
-  apply (check_comb_field_rejected _ _ _ _ _ (length fs1) of nf); [rewrite E|rewrite E'|exact NA]; apply nth_error_app_len.
+  apply (check_comb_field_rejected _ _ _ _ _ (length fs1) of nf); [rewrite E|rewrite E'|exact NA]; rewrite nth_error_app_len; reflexivity.
 Qed.
 
 Theorem reject_changed_field_type : forall l1 c c' l2 fs1 of nf fs2 fs2' oname obare oargs nname nbare nargs,
@@ -162,7 +162,7 @@ Proof.
   - reflexivity.
   - cbn [check_new_fields]. rewrite HM. intros H. apply andv_accept in H. destruct H as [H _]. revert H.
     apply (bit_check_used _ _ _ _ f m b j).
-    + cbn [add_field c_fields]. apply nth_error_app_len.
+    + cbn [add_field c_fields]. rewrite nth_error_app_len. reflexivity.
     + exact HM.
     + exact HT.
     + cbn [add_field c_fields]. unfold find_index in *. apply find_index_from_app. exact HF.
